@@ -374,13 +374,24 @@ def bht_flat(S, ip):
     return flat
 
 
-def respost_flat(S, Trock, depth_m):
+def tinj_used(S, ip):
+    """injection temperature the reservoir stage worked with (input + wellbore gain): power plants may lower
+    model.wellbores.Tinj afterwards (reinjection_temperature), so the snapshot value is only the fallback"""
+    gain = F(S.v('wellbores', 'tempgaininj'))
+    if 'Injection Temperature' not in ip:
+        d = S.p('wellbores', 'Tinj').get('DefaultValue')
+        return (F(d) + gain) if isinstance(d, (int, float)) else F(S.v('wellbores', 'Tinj'))
+    v = _num(re.sub(r'\s*degC\s*$', '', ip['Injection Temperature'][0]))
+    return (v + gain) if v is not None else F(S.v('wellbores', 'Tinj'))
+
+
+def respost_flat(S, Trock, depth_m, tinj):
     """flat input / expected output of run_respost from a snapshot (inputs are the Parameter values, outputs the calculated copies)"""
     e = lambda a: S.v('reserv', a)
     shape, opt = e('fracshape'), e('resvoloption')
     if not (isinstance(shape, dict) and isinstance(opt, dict)) or shape.get('int') is None or opt.get('int') is None:
         return None
-    tinj, gain = F(S.v('wellbores', 'Tinj')), F(S.v('wellbores', 'tempgaininj'))
+    gain = F(S.v('wellbores', 'tempgaininj'))
     area = F(e('fracarea'))
     flat = [F(int(e('numseg'))), F(e('Tsurf')), F(e('gradient')[0]), Trock, depth_m, F(shape['int']), F(opt['int']), area,
             F(e('fracheight')), F(e('fracwidth')), F(e('fracnumb')), F(e('fracsep')), F(e('resvol')), F(math.pi),
@@ -462,7 +473,8 @@ def part_runs(ctx, inputs):
                 bht.append((flat, ('V', got), ref))
             spec.append((flat, ('V', [Trock]), ref, 'Reservoir Depth' in ip))
         # --- the rest of Reservoir.Calculate: average gradient, fracture geometry, volume option, heat content
-        rf = respost_flat(S, Trock, depth)
+        Tinj = tinj_used(S, ip)
+        rf = respost_flat(S, Trock, depth, Tinj)
         if rf is not None:
             rp.append((rf[0], ('V', rf[1]), ref, rf[2]))
         if m == 5:                                        # user-provided profile: only the base-class clauses apply
@@ -471,7 +483,7 @@ def part_runs(ctx, inputs):
         # --- histories
         T, P = [F(x) for x in S.v('reserv', 'Tresoutput')], [F(x) for x in S.v('wellbores', 'ProducedTemperature')]
         n, red = len(T), int(S.v('wellbores', 'redrill'))
-        Tinj, maxdd = F(S.v('wellbores', 'Tinj')), F(S.v('wellbores', 'maxdrawdown'))
+        maxdd = F(S.v('wellbores', 'maxdrawdown'))
         dh = S.enum_name('surfaceplant', 'plant_type') == 'DISTRICT_HEATING'
         if len(P) != n:
             ctx.violate('property', f'length:model={m}', f'{name}: ProducedTemperature has {len(P)} entries, Tresoutput {n}', inp=ref)
@@ -743,7 +755,7 @@ def replay(ctx, data):
         P, Tn = [F(x) for x in m.wellbores.ProducedTemperature.value], [F(x) for x in m.reserv.Tresoutput.value]
         red = int(m.wellbores.redrill.value)
         bad = _kernel(ctx, 'replay', ['Model.Redrill'], 'run_redrill', TOL,
-                      [([maxdd, F(len(T)), F(c.get('prev', 0))] + [x - drop for x in T] + T, ('V', P + Tn + [F(red)]))])
+                      [([maxdd, F(len(T)), F(c.get('prev', 0) if red == c.get('prev', 0) else 0)] + [x - drop for x in T] + T, ('V', P + Tn + [F(red)]))])
         print('WellBores.Calculate -> redrill', red, 'ProducedTemperature', [float(x) for x in P][:40], '| model agrees:', not bad)
         lim = (1 - maxdd) * P[0]
         if P[0] >= 0 and any(x < lim - OTOL * max(1, abs(lim)) for x in P):
